@@ -121,6 +121,10 @@ pub enum Event<'a> {
     DepAdd { txid: usize, dep: Option<usize> },
     DepRemove { txid: usize, handoff: Option<usize> },
     KeyTx { txid: usize },
+    /// the claimability flag of `txid` flipped to true (under the dependent's lock)
+    DepOnboard { txid: usize },
+    /// `txid` was handed to a claimer (cursor claim or direct hand-off), under the dependent's lock
+    DepClaim { txid: usize, handoff: bool },
     PublishCommit { index: usize },
     PublishFinality { index: usize },
     Installed { outcomes: usize, committed_idx: usize },
